@@ -75,10 +75,13 @@ int attr_tree_set_value(struct attr_tree *t, const char *name, enum xcm_attr_typ
   if (nd_bool()) { g_attr_refused = true; errno = nd_bool() ? EINVAL : EACCES; return -1; }
   if (strcmp(name, XCM_ATTR_XCM_BLOCKING) == 0) return xcm_set_blocking(s, *(const bool *)v);      /* what set_blocking_attr (xcm_tp.c, tp.service) does: the real xcm_set_blocking */
   return 0; }
-static struct { int d; } map_tok; static bool g_map_blocking_val;
-bool xcm_attr_map_exists(const struct xcm_attr_map *m, const char *n) { return m != NULL && strcmp(n, XCM_ATTR_XCM_BLOCKING) == 0; }      /* the mock map holds xcm.blocking and one other attribute */
+static struct { int d; } map_tok; static bool g_map_blocking_val, g_map_has_blocking, g_map_has_service;
+/* the mock map holds any subset of { xcm.blocking, xcm.service } and one other attribute */
+bool xcm_attr_map_exists(const struct xcm_attr_map *m, const char *n)
+{ return m != NULL && ((g_map_has_blocking && strcmp(n, XCM_ATTR_XCM_BLOCKING) == 0) || (g_map_has_service && strcmp(n, XCM_ATTR_XCM_SERVICE) == 0)); }
 void xcm_attr_map_foreach(const struct xcm_attr_map *m, xcm_attr_map_foreach_cb cb, void *u)
-{ (void)m; cb(XCM_ATTR_XCM_BLOCKING, xcm_attr_type_bool, &g_map_blocking_val, sizeof(bool), u); cb("x", xcm_attr_type_bool, &g_map_blocking_val, sizeof(bool), u); }
+{ (void)m; if (g_map_has_service) cb(XCM_ATTR_XCM_SERVICE, xcm_attr_type_str, "any", 4, u);
+  if (g_map_has_blocking) cb(XCM_ATTR_XCM_BLOCKING, xcm_attr_type_bool, &g_map_blocking_val, sizeof(bool), u); cb("x", xcm_attr_type_bool, &g_map_blocking_val, sizeof(bool), u); }
 const char *xcm_version(void) { return "v"; }
 const char *xcm_version_api(void) { return "a"; }
 
@@ -96,8 +99,8 @@ int main(void)
     g_known_proto = nd_bool();
     for (int i = 0; i < NS; i++) g_xp_fail_at[i] = nd_bool();
     const struct xcm_attr_map *attrs = nd_bool() ? NULL : (const struct xcm_attr_map *)&map_tok;
-    g_map_blocking_val = nd_bool();
-    bool want_nonblocking = attrs != NULL && !g_map_blocking_val;
+    g_map_blocking_val = nd_bool(); g_map_has_blocking = attrs != NULL && nd_bool(); g_map_has_service = attrs != NULL && nd_bool();
+    bool want_nonblocking = g_map_has_blocking && !g_map_blocking_val;
     errno = 0;
 #ifdef OP_LIFE_ACCEPT
     /* a serving socket */
@@ -133,9 +136,10 @@ int main(void)
 	CHECK(k->st == ts_open && g_xp_live == 1, "C08: a returned socket is open and owns exactly one epoll instance");
 	CHECK(k == &socks[n_socks - 1], "C08: ... and is the only socket object left from this call");
 #ifdef OP_LIFE_ACCEPT
-	CHECK(s->is_blocking == (attrs != NULL ? g_map_blocking_val : srv_blocking), "C11: an accepted connection has the mode given in xcm_accept_a's attributes, else the server socket's");
+	CHECK(s->is_blocking == (g_map_has_blocking ? g_map_blocking_val : srv_blocking), "C11: an accepted connection has the mode given in xcm_accept_a's attributes, else the server socket's - whatever else the attribute map holds");
+	WITNESS(g_map_has_service && !g_map_has_blocking && !srv_blocking, "accept attributes with xcm.service but without xcm.blocking on a non-blocking server");
 #elif defined(OP_LIFE_CONNECT)
-	CHECK(s->is_blocking == (attrs != NULL ? g_map_blocking_val : true), "C11: a connection has the mode given in xcm_connect_a's attributes, else blocking");
+	CHECK(s->is_blocking == (g_map_has_blocking ? g_map_blocking_val : true), "C11: a connection has the mode given in xcm_connect_a's attributes, else blocking");
 #endif
 	nothing_left(n_socks);                       /* vacuous range, checks trees */
 	for (int i = first; i < NS; i++) if (i < n_socks - 1) CHECK(socks[i].st == ts_destroyed, "C08: socket objects of earlier rounds of a blocking accept are destroyed");
